@@ -1,4 +1,5 @@
 import RulesModel.Proofs.C15Sentences
+import RulesModel.Proofs.C15SignedTable
 namespace Rules.StrClosed
 open Rules Rules.Regex
 
@@ -169,30 +170,38 @@ end Rules.StrClosed
 namespace Rules.Render
 open Rules.P Rules
 
-/-- **C15 for every sentence of the shipped grammar.** For every rule text `s` the grammar accepts whose integer literals
-carry no sign and no exponent, every rendering of its tree - any spelling of `not` and of the ten operators, optional
+/-- the three table facts of `TableOK`, for the table regenerated on this run -/
+theorem table_ok : TableOK Generated.lexerRules := ⟨adj_separated_all, int_follow, Signed.signed_ok⟩
+
+/-- `C15_render_generated` without hypothesis about the table -/
+theorem C15_render_all (t : Tree) (h : wf Generated.lexerRules (extClosed Generated.lexerRules) t = true) (sty : Sty) :
+    lexParse Generated.lexerRules (text (render sty [] t)) = some t :=
+  C15_render_generated Signed.signed_ok t h sty
+
+/-- **C15 for every sentence of the shipped grammar.** For every rule text `s` the grammar accepts - negative integers and
+integers with exponents included -, every rendering of its tree - any spelling of `not` and of the ten operators, optional
 blanks, newlines after blanks, blanks after commas, all chosen by an arbitrary style function - is read back as the same
 tree. No hypothesis about individual names, numbers or string literals is left. -/
 theorem C15_sentences_generated (s : List Char) (ts : List Token) (t : Tree)
-    (hl : lex Generated.lexerRules s = some ts) (hpar : P.parse (ts.map toTok) = some t) (hp : plainLongs t = true) (sty : Sty) :
+    (hl : lex Generated.lexerRules s = some ts) (hpar : P.parse (ts.map toTok) = some t) (sty : Sty) :
     lexParse Generated.lexerRules (text (render sty [] t)) = some t :=
-  C15_sentences Generated.lexerRules adj_separated spell_table StrClosed.string_tokens_closed s ts t hl hpar hp sty
+  C15_sentences Generated.lexerRules table_ok spell_table StrClosed.string_tokens_closed s ts t hl hpar sty
 
 /-- … and any two such renderings evaluate alike on every object (verdict, error, diagnostic, Stringer calls) -/
 theorem C15_sentences_generated_process (s : List Char) (ts : List Token) (t : Tree)
-    (hl : lex Generated.lexerRules s = some ts) (hpar : P.parse (ts.map toTok) = some t) (hp : plainLongs t = true)
+    (hl : lex Generated.lexerRules s = some ts) (hpar : P.parse (ts.map toTok) = some t)
     (sty sty' : Sty) (lower : Bytes → Bytes) (item : List (Bytes × Value)) :
     (lexParse Generated.lexerRules (text (render sty [] t))).map (fun tr => processTree lower tr item) =
     (lexParse Generated.lexerRules (text (render sty' [] t))).map (fun tr => processTree lower tr item) :=
-  C15_sentences_process Generated.lexerRules adj_separated spell_table StrClosed.string_tokens_closed s ts t hl hpar hp sty sty' lower item
+  C15_sentences_process Generated.lexerRules table_ok spell_table StrClosed.string_tokens_closed s ts t hl hpar sty sty' lower item
 
 /-- non-vacuity: a rule text with escapes, blanks and parentheses inside string literals, a list and a nested path satisfies
 the hypotheses, and its rendering in another style is a different text that reads back as the same tree -/
 example :
-    let s := "not (name eq \"a) \\\" (b\" and x.y in [\"p q\", \"r\"]) or n ge 10".toList
+    let s := "not (name eq \"a) \\\" (b\" and x.y in [\"p q\", \"r\"]) or n ge -10e+3 and (m lt 7E+0)".toList
     (match lex Generated.lexerRules s with
      | some ts => (match P.parse (ts.map toTok) with
-       | some t => plainLongs t && (text (render (fun p => p.length + 1) [] t) != s) &&
+       | some t => (text (render (fun p => p.length + 1) [] t) != s) &&
                    (lexParse Generated.lexerRules (text (render (fun p => p.length + 1) [] t)) == some t)
        | none => false)
      | none => false) = true := by decide +kernel
